@@ -6,7 +6,7 @@ ID = "C16"
 PROPS = "Props/C16.v"
 GEN = ["tlssuites"]
 LEGS = [{"driver": "c16", "runner": ("resume", "Extract/ExtractResume.v", "Resume_model"), "tags": "verif", "timeout": 1500}]
-COQ_TIMEOUT = 1500
+COQ_TIMEOUT = 5400
 
 TECHNIQUE = ("Coq proofs over (a) a byte-level model of the sessionState codec and of encryptTicket/decryptTicket, (b) a symbolic model "
              "(ideal ticket MAC) of the ticket gate, the server's resumption decision (GM and TLS variants over the suite tables regenerated "
